@@ -192,8 +192,17 @@ fn sparse_catalogue(full: bool) -> Vec<(String, Vec<usize>, Vec<(usize, usize)>)
     v
 }
 
+/// Catalogue level: `--level=N` on the command line (cargo-miri prefers build-time
+/// environment variables over run-time ones, so an environment variable cannot carry
+/// it reliably), else MEMPROBE_LEVEL, else 1.
 fn level() -> usize {
-    std::env::var("MEMPROBE_LEVEL").ok().and_then(|v| v.parse().ok()).unwrap_or(1)
+    static L: std::sync::OnceLock<usize> = std::sync::OnceLock::new();
+    *L.get_or_init(|| {
+        std::env::args()
+            .find_map(|a| a.strip_prefix("--level=").and_then(|v| v.parse().ok()))
+            .or_else(|| std::env::var("MEMPROBE_LEVEL").ok().and_then(|v| v.parse().ok()))
+            .unwrap_or(1)
+    })
 }
 
 fn vertex_args(n: usize) -> Vec<usize> {
@@ -992,7 +1001,7 @@ pub fn catalogue(full: bool, only: Option<usize>) -> Vec<Group> {
 }
 
 fn main() {
-    let args: Vec<String> = std::env::args().collect();
+    let args: Vec<String> = std::env::args().filter(|a| !a.starts_with("--level=")).collect();
     std::panic::set_hook(Box::new(|_| {}));
     let full = level() >= 2;
     let _ = set_parallelism(Parallelism::Fixed(2));
